@@ -92,3 +92,23 @@ From Strand Require Import Proofs.RistrettoDecode.
 Theorem C20_decoded_points_are_curve_points : forall (K : Kernel) bs P, ed_decompress K bs = Some P -> valid P.
 Proof. exact ed_decompress_valid. Qed.
 Print Assumptions C20_decoded_points_are_curve_points.
+
+(* END-TO-END, on the executable Ed25519 model and with no hypothesis: for every seed and every message, the 64-byte
+   signature the model produces is accepted under the 32-byte public key the model derives — by the model of
+   ed25519-zebra's verification (ZIP-215 rules: decode A and R, cofactored equation) and by the model of ed25519-dalek's
+   `verify` (re-encode R' and compare bytes). Ingredients, all proved: the Edwards group law (Base/Edwards.v), [l]B = 0,
+   SQRT_RATIO_M1 finds a root whenever one exists (Proofs/SqrtRatio.v: Fermat/Euler for p = 5 mod 8), point decoding
+   inverts point encoding (Proofs/Ed25519Complete.v), canonical scalars round-trip. Both frontends sign with the same
+   function, so they produce identical signatures and accept each other's. *)
+From Strand Require Import Proofs.SqrtRatio Proofs.Ed25519Complete.
+Theorem C20_signed_messages_verify : forall (K : Kernel) (PM : PMul) seed msg,
+  ed_verify_zebra K PM (ed_pk K PM seed) (ed_sign K PM seed msg) msg = Ok true /\
+  ed_verify_dalek K PM (ed_pk K PM seed) (ed_sign K PM seed msg) msg = Ok true.
+Proof. intros K PM seed msg. exact (conj (ed_sign_verify_zebra K PM seed msg) (ed_sign_verify_dalek K PM seed msg)). Qed.
+Print Assumptions C20_signed_messages_verify.
+
+(* decoding inverts encoding on every valid point (both directions of the key / commitment wire format) *)
+Theorem C20_point_codec_roundtrip : forall (K : Kernel) P, valid P ->
+  exists Q, ed_decompress K (ed_compress K P) = Some Q /\ valid Q /\ aff Q = aff P.
+Proof. exact ed_decompress_compress. Qed.
+Print Assumptions C20_point_codec_roundtrip.
